@@ -15,7 +15,8 @@ LEVEL = 'exploration'
 RULE = ('molecules of 1..12 fragments on a random reference: random overlaps between mates and between fragments, mismatches, N calls, '
         'equal and unequal mate qualities at disagreeing positions, single-end fragments, fragments without R1, dove-tailed mates; '
         'get_consensus() and get_consensus(dove_safe=True); all insertion orders for n<=5 (50 sampled beyond) and duplication of every '
-        'fragment. Non-trivial = molecule with at least one tied position or mate disagreement; distinct = distinct (molecule seed, variant).')
+        'fragment. Non-trivial = molecule with at least one tied position or mate disagreement; distinct = distinct (molecule seed, variant).'
+        ' Plus both request forms (plain / with_probs_and_obs), alternating plain and dove-safe requests on shared Fragment objects, growth histories, molecules of 255-300 stacked fragments.')
 ASSUMPTIONS = ['fragments are forced into one molecule through the internal add so the equality rules do not filter the input',
                'each fragment with a read 1 contributes one call per position: the higher-quality mate; equal quality with different bases, or N: no vote']
 MIN_NONTRIVIAL = {'quick': 300, 'thorough': 30000}
